@@ -5,6 +5,7 @@ import (
 	"encoding/json"
 	"fmt"
 	"net/http"
+	"strings"
 
 	"github.com/tigerwill90/fox"
 	vs "github.com/tigerwill90/fox/verifsync"
@@ -221,7 +222,7 @@ func scenario(pi, si, ei int) *mc.Scenario {
 						return "blocked", "reader-blocked", fmt.Sprintf("read entry point %q cannot complete while a write transaction is held open (%s): %s", entries[ei].name, stages[si].name, x.S.DeadInfo)
 					}
 					if pv, stk := x.S.PanicOf(0); pv != nil {
-						return "panic", "panic", fmt.Sprintf("read entry point %q panicked: %v\n%s", entries[ei].name, pv, stk)
+						return "panic", "panic", fmt.Sprintf("read entry point %q panicked: %v\n%s", entries[ei].name, pv, mc.NormStack(stk, 10))
 					}
 					pt := x.S.PerThread[0]
 					locks := pt[vs.OpLock] + pt[vs.OpRLock] + pt[vs.OpTryLock] + pt[vs.OpUnlock] + pt[vs.OpRUnlock]
@@ -289,6 +290,45 @@ func converse() []*mc.Scenario {
 						}
 						if pv, _ := x.S.PanicOf(1); pv != nil {
 							return "panic", "panic", fmt.Sprint(pv)
+						}
+						return "ok", "", ""
+					},
+				}
+			},
+		})
+	}
+	// a writer that commits and then holds a new write transaction open forever, concurrent with every
+	// read entry point: whatever the interleaving of the commit with the read, the reader finishes and
+	// never touches the writer lock
+	for ei := range entries {
+		ei := ei
+		out = append(out, &mc.Scenario{
+			Name: "commit-then-park | " + entries[ei].name,
+			Build: func() *mc.Instance {
+				e := build(2, 0)
+				g := &vs.Gate{}
+				return &mc.Instance{
+					Bodies: []func(){
+						func() {
+							e.f.Handle("GET", "/committed", fx.VerHandler(3))
+							e.f.Update("GET", "/a", fx.VerHandler(4))
+							t := e.f.Txn(true)
+							t.Handle("GET", "/uncommitted", fx.VerHandler(5))
+							g.Park()
+						},
+						func() { entries[ei].run(e) },
+					},
+					Daemon: []bool{true, false},
+					Check: func(x *mc.Exec) (string, string, string) {
+						if x.S.Deadlock || !x.S.Finished(1) {
+							return "blocked", "reader-blocked", fmt.Sprintf("read entry point %q cannot complete while a writer commits and then holds a write transaction open: %s", entries[ei].name, x.S.DeadInfo)
+						}
+						if pv, stk := x.S.PanicOf(1); pv != nil {
+							return "panic", "panic", fmt.Sprintf("read entry point %q panicked: %v\n%s", entries[ei].name, pv, mc.NormStack(stk, 10))
+						}
+						pt := x.S.PerThread[1]
+						if locks := pt[vs.OpLock] + pt[vs.OpRLock] + pt[vs.OpTryLock] + pt[vs.OpUnlock] + pt[vs.OpRUnlock]; locks > 0 {
+							return "locks", "reader-takes-lock", fmt.Sprintf("read entry point %q performed %d mutex operations while a writer was committing: readers must never touch the writer lock", entries[ei].name, locks)
 						}
 						return "ok", "", ""
 					},
@@ -372,7 +412,11 @@ func init() {
 					}
 					cc := *c
 					cc.NShards = 1
-					mc.Explore(&cc, r, "product", sc, mc.ExploreOpts{Bound: -1})
+					bound := -1
+					if strings.HasPrefix(sc.Name, "commit-then-park") {
+						bound = 2
+					}
+					mc.Explore(&cc, r, "product", sc, mc.ExploreOpts{Bound: bound})
 				}
 				mc.CountNontrivial(r)
 				r.Bounds = map[string]string{"product": fmt.Sprintf("%d profiles x %d writer stages x %d read entry points + %d converse scenarios (unbounded interleavings)", len(profiles), len(stages), len(entries), len(converse()))}
